@@ -279,7 +279,8 @@ Lemma are_joinable_true s b1 b2 s1 :
   (exists i, bbi (the_blk s b1) = Some i /\ bbi (the_blk s b2) = Some i) /\
   boff (the_blk s b1) + bsize (the_blk s b1) = boff (the_blk s b2) /\
   Inv (rcache s1) /\ map fst (stab (rcache s1)) = map fst (stab (rcache s)) /\ (forall x, abs (rcache s1) x = abs (rcache s) x) /\
-  (bsize (the_blk s b1) <> 0 -> forall x, In x (map fst (stab (rcache s))) -> fst (abs (rcache s) x) = Some b2 -> snd (abs (rcache s) x) = true).
+  (bsize (the_blk s b1) <> 0 -> forall x, In x (map fst (stab (rcache s))) -> fst (abs (rcache s) x) = Some b2 -> snd (abs (rcache s) x) = true) /\
+  (bsize (the_blk s b1) <> 0 -> bsize (the_blk s b2) <> 0 -> forall x, In x (map fst (stab (rcache s))) -> abs (rcache s) x <> (Some b1, true)).
 Proof.
   unfold are_joinable. intros E HI.
   destruct (negb (bkind_eqb _ _)); [discriminate|].
@@ -289,7 +290,7 @@ Proof.
   apply Z.eqb_eq in Eo.
   destruct (bsize (the_blk s b1) =? 0) eqn:Ez.
   { inversion E; subst s1. apply Z.eqb_eq in Ez. split; [reflexivity|]. split; [eauto|]. split; [exact Eo|]. split; [exact HI|].
-    split; [reflexivity|]. split; [reflexivity|]. intros Hne; contradiction. }
+    split; [reflexivity|]. split; [reflexivity|]. split; intros Hne; contradiction. }
   destruct (_ && negb _)%bool; [discriminate|].
   unfold get_refs in E.
   pose proof (get_references_spec (rcache s) b2 HI) as Hg. destruct (get_references (rcache s) b2) as [l c1] eqn:Eg.
@@ -305,11 +306,31 @@ Proof.
     unfold sym_at_end. cbn [rcache set_rcache].
     assert (Hd : ~ In x (fsyms (refs c1))) by (eapply direct_of_no_tree; eauto; rewrite Ha1; exact Hab).
     rewrite <- (abs_direct c1 x HI1 Hd), Ha1, Es. reflexivity. }
-  assert (Hs1 : blocks s1 = blocks s /\ rcache s1 = c1).
-  { repeat match type of E with (if ?c then _ else _) = _ => destruct c; try discriminate end; inversion E; subst s1; auto. }
-  destruct Hs1 as (Hb1 & Hc1). rewrite Hc1.
-  split; [exact Hb1|]. split; [eauto|]. split; [exact Eo|]. split; [exact HI1|]. split; [exact Hk1|]. split; [exact Ha1|].
-  intros _. exact Hend.
+  destruct (bsize (the_blk s b2) =? 0) eqn:Ez2.
+  - (* empty block2: block1 is not looked at *)
+    assert (Hs1 : blocks s1 = blocks s /\ rcache s1 = c1).
+    { cbn [negb] in E. repeat match type of E with (if ?c then _ else _) = _ => destruct c; try discriminate end; inversion E; subst s1; auto. }
+    destruct Hs1 as (Hb1 & Hc1). rewrite Hc1.
+    split; [exact Hb1|]. split; [eauto|]. split; [exact Eo|]. split; [exact HI1|]. split; [exact Hk1|]. split; [exact Ha1|].
+    split; [intros _; exact Hend|]. intros _ Hn2. apply Z.eqb_eq in Ez2. contradiction.
+  - cbn [rcache set_rcache] in E.
+    pose proof (get_references_spec c1 b1 HI1) as Hg2. destruct (get_references c1 b1) as [l2 c2] eqn:Eg2.
+    destruct Hg2 as (Hl2 & HI2 & Ha2 & Hr2).
+    assert (Hk2 : map fst (stab c2) = map fst (stab c1)).
+    { unfold get_references in Eg2. destruct (refs_get b1 (refs c1)) as [[st en]|]; inversion Eg2; subst; auto.
+      cbn [stab]. rewrite !make_direct_keys. reflexivity. }
+    destruct (existsb _ l2) eqn:Eex2; [discriminate|].
+    assert (Hnoend : forall x, In x (map fst (stab (rcache s))) -> abs (rcache s) x <> (Some b1, true)).
+    { intros x Hx Hab. assert (Hin : In x l2) by (apply Hl2; rewrite Hk1, Ha1, Hab; auto).
+      assert (Hnot := Eex2). rewrite <- not_true_iff_false in Hnot. apply Hnot. apply existsb_exists. exists x. split; [exact Hin|].
+      unfold sym_at_end. cbn [rcache set_rcache].
+      assert (Hd : ~ In x (fsyms (refs c2))) by (eapply direct_of_no_tree; eauto; rewrite Ha2, Ha1, Hab; reflexivity).
+      rewrite <- (abs_direct c2 x HI2 Hd), Ha2, Ha1, Hab. reflexivity. }
+    assert (Hs1 : blocks s1 = blocks s /\ rcache s1 = c2).
+    { repeat match type of E with (if ?c then _ else _) = _ => destruct c; try discriminate end; inversion E; subst s1; auto. }
+    destruct Hs1 as (Hb1 & Hc1). rewrite Hc1.
+    split; [exact Hb1|]. split; [eauto|]. split; [exact Eo|]. split; [exact HI2|]. split; [rewrite Hk2; exact Hk1|].
+    split; [intros x; rewrite Ha2; apply Ha1|]. split; [intros _; exact Hend|]. intros _ _. exact Hnoend.
 Qed.
 
 (* retarget_references keeps the set of symbols *)
@@ -334,11 +355,12 @@ Proof.
   - eapply H; eauto.
 Qed.
 
-(* T3: joining two adjacent blocks moves no label, provided nothing designates the end of the first one
-   (split_block_clears_end establishes that for the head block of every split). *)
+(* T3: joining two adjacent blocks moves no label.  Only when block1 is empty must nothing designate its end
+   (split_block_clears_end establishes that for the head block of every split): a non-empty block1 with an end label is
+   joined only with an empty block2. *)
 Theorem join_blocks_keeps_places s b1 b2 s' :
   join_blocks s b1 b2 = Ok (Some s') -> Inv (rcache s) -> b1 <> b2 ->
-  (forall x, abs (rcache s) x <> (Some b1, true)) ->
+  (bsize (the_blk s b1) = 0 -> forall x, abs (rcache s) x <> (Some b1, true)) ->
   Inv (rcache s') /\ map fst (stab (rcache s')) = map fst (stab (rcache s)) /\
   forall x, In x (map fst (stab (rcache s))) -> sym_pos s' x = sym_pos s x.
 Proof.
@@ -346,7 +368,7 @@ Proof.
   pose proof (join_blocks_spec _ _ _ _ E) as (_ & _ & Hbl).
   unfold join_blocks in E.
   destruct (are_joinable s b1 b2) as [ok s1] eqn:EJ. destruct ok; cbn [negb] in E; [|discriminate].
-  destruct (are_joinable_true _ _ _ _ EJ HI) as (Hb1 & (i & Ei1 & Ei2) & Hadj & HI1 & Hk1 & Ha1 & Hend).
+  destruct (are_joinable_true _ _ _ _ EJ HI) as (Hb1 & (i & Ei1 & Ei2) & Hadj & HI1 & Hk1 & Ha1 & Hend & Hnoend1).
   assert (Hblk1 : forall y, the_blk s1 y = the_blk s y) by (intros y; unfold the_blk; rewrite Hb1; reflexivity).
   rewrite !Hblk1 in E.
   destruct (join_syms s1 b1 b2 (bsize (the_blk s b1) =? 0)) as [s2|] eqn:E2; cbn [bind] in E; [|discriminate].
@@ -396,7 +418,7 @@ Proof.
       + apply P2. cbn. discriminate. }
   destruct HS as (IS & KS & AS).
   split; [exact IS|]. split; [exact KS|].
-  intros x Hx. rewrite (AS x Hx). specialize (Hnoend x).
+  intros x Hx. rewrite (AS x Hx).
   destruct (abs (rcache s) x) as [[b'|] e] eqn:Ea; [|destruct e; reflexivity].
   destruct (Nat.eqb b' b2) eqn:Eb.
   - apply Nat.eqb_eq in Eb. subst b'. unfold place. rewrite Hf1. fold x2. cbn [bbi boff bsize]. fold x1 in Ei1. fold x2 in Ei2. rewrite Ei1, Ei2.
@@ -406,6 +428,10 @@ Proof.
       { specialize (Hend Ez x Hx). rewrite Ea in Hend. cbn in Hend. apply Hend. reflexivity. }
       subst e. lia.
   - destruct (Nat.eq_dec b' b1) as [->|Hn1].
-    + destruct e; [exfalso; apply Hnoend; reflexivity|]. unfold place. rewrite Hf1. fold x1. cbn [bbi boff bsize]. reflexivity.
+    + unfold place. rewrite Hf1. fold x1. cbn [bbi boff bsize]. destruct e; [|reflexivity].
+      (* an end label of block1: either block2 is empty, or (block1 being non-empty) are_joinable has refused *)
+      destruct (Z.eq_dec (bsize x2) 0) as [Hz2|Hz2]; [rewrite Hz2, Z.add_0_r; reflexivity|].
+      destruct (Z.eq_dec (bsize x1) 0) as [Hz1|Hz1]; [exfalso; apply (Hnoend Hz1 x); exact Ea|].
+      exfalso. apply (Hnoend1 Hz1 Hz2 x Hx). exact Ea.
     + unfold place. rewrite Hfo; auto. intros ->. rewrite Nat.eqb_refl in Eb. discriminate.
 Qed.
